@@ -173,6 +173,8 @@ def base_outcome(hist, require_ready=True, allow_norule=False):
     o.fp = hist.fingerprint(); o.sig = hist.schedule_signature(); o.probes = dict(hist.probes); o.simsec = hist.sim_seconds()
     if require_ready and not hist.life_has('ready'):
         o.infra = 'squid never became ready: rc=%s end=%s out=%s log=%s' % (hist.rc, hist.end, hist.output[-300:], hist.cache_log()[-400:])
+    elif hist.end in ('limit-events', 'limit-wall', 'limit-simtime', 'deadlock'):
+        o.infra = 'run cut short by the simulator (%s): scenario too long for its limits' % hist.end
     elif hist.probes.get('sim.norule') and not allow_norule:
         o.infra = 'scenario bug: an origin received a request no rule matches'
     return o
